@@ -190,7 +190,7 @@ class Check(PropertyCheck):
                 d = G.gen_compound(rng, 1, lambda: dyadic_region(rng, rng.choice(G.SIMPLE_KINDS)))
             k = rng.choice([1, 7, 100, 10 ** 4])
             cases.append({'kind': 'shift', 'region': d, 'kx': rng.randint(-k, k), 'ky': rng.randint(-k, k),
-                          'subpixels': rng.randint(1, 6)})
+                          'subpixels': rng.choice([1, 2, 2, 3, 4, 4, 5, 6, 8])})
         return cases
 
     # ------------------------------------------------------------------ real
@@ -250,12 +250,21 @@ class Check(PropertyCheck):
                     out['masks'][mode] = 'equal'
                 elif np.allclose(m1, m2, rtol=0, atol=1e-9):
                     out['masks'][mode] = 'close'
-                elif mode != 'exact' and self._only_boundary_samples(d, b1, m1, m2, 1 if mode == 'center' else case['subpixels']):
+                elif (mode != 'exact' and not self._exact_arithmetic(d, 1 if mode == 'center' else case['subpixels'])
+                      and self._only_boundary_samples(d, b1, m1, m2, 1 if mode == 'center' else case['subpixels'])):
                     out['masks'][mode] = 'boundary'
                 else:
                     out['masks'][mode] = f'differ max={float(np.abs(m1 - m2).max()):.3g}'
                 out.setdefault('nonempty', bool(m1.sum() > 0))
         return out
+
+    @staticmethod
+    def _exact_arithmetic(d, n):
+        """plain polygons with dyadic vertices, integer shifts and a power-of-two sampling factor: every
+        sample position and every on-edge comparison of the even-odd kernel is exact in binary floating point (the
+        quotient of an on-edge sample is itself dyadic), so NOT EVEN samples on an edge may change under a
+        whole-pixel translation."""
+        return d['kind'] == 'polygon' and 'origin' not in d and n in (1, 2, 4, 8)
 
     @staticmethod
     def _only_boundary_samples(d, b1, m1, m2, n):
